@@ -402,6 +402,44 @@ def real_kernels(rng, tier):
                 if not torch.allclose(out, ref, rtol=1e-7, atol=1e-9):
                     fails.append(dict(clause='JtR_is_robust_gradient', signature=f'{cname}/{name}', err=float((out - ref).abs().max())))
         if t < 1: samples.append(dict(n=n, d=dd, k=k))
+    # SATURATED kernels: a residual so large that the kernel is flat to working precision (rho' = 0 and rho'' = +-0 from autograd - Tolerant beyond
+    # its exponential, Arctan far out, a user kernel with a flat tail) contributes NOTHING to the gradient; both correctors stay finite and agree
+    class Tukey(torch.nn.Module):
+        def __init__(self, c): super().__init__(); self.c2 = c * c
+        def forward(self, x):
+            assert torch.all(x >= 0)
+            z = (1 - (x / self.c2).clamp(max=1.0)) ** 3
+            return self.c2 / 3 * (1 - z)
+    for dt_ in (torch.float32, torch.float64):
+        big = 30.0 if dt_ == torch.float32 else 80.0
+        for kname, ker in (('Tolerant', pp.optim.kernel.Tolerant()), ('Tolerant(2,-0.5)', pp.optim.kernel.Tolerant(2.0, -0.5)), ('user kernel with a flat tail', Tukey(1.5))):
+            Rs = torch.tensor([[0.3, -0.2], [big, big * 0.9], [0.1, 0.4]], dtype=dt_); Js = torch.randn(6, 3, dtype=torch.float64, generator=g).to(dt_)
+            xs_ = (Rs * Rs).sum(-1, keepdim=True).clone().requires_grad_(True)
+            g1s = torch.autograd.grad(ker(xs_).sum(), xs_)[0].detach().reshape(-1)
+            refs = (Js.view(3, 2, 3) * (g1s[:, None] * Rs)[..., None]).sum((0, 1))
+            for cname in ('FastTriggs', 'Triggs'):
+                try:
+                    R2, J2 = getattr(pp.optim.corrector, cname)(ker)(R=Rs.clone(), J=Js.clone()); evals += 1
+                except Exception as e:
+                    fails.append(dict(clause='corrector_raises', signature=f'{cname}/{kname}/saturated', error=f'{type(e).__name__}: {e}'[:160])); continue
+                outs = J2.T @ R2.reshape(-1)
+                if not bool(torch.isfinite(R2).all() and torch.isfinite(J2).all()):
+                    fails.append(dict(clause='corrected_values_finite', signature=f'{cname}/{kname}/{str(dt_).split(".")[-1]}', note='a residual on the saturated part of the kernel'))
+                elif not torch.allclose(outs, refs, rtol=1e-4 if dt_ == torch.float32 else 1e-9, atol=1e-5 if dt_ == torch.float32 else 1e-12):
+                    fails.append(dict(clause='JtR_is_robust_gradient', signature=f'{cname}/{kname}/saturated/{str(dt_).split(".")[-1]}', err=float((outs - refs).abs().max())))
+    # closed forms to float64 round-off for parameters that float32 cannot represent (a constant of the kernel kept in the default dtype shows
+    # here only): value, zero at zero, and the slope FastTriggs uses
+    import math as _m
+    closed = {'Huber': lambda p, x: x if _m.sqrt(x) < p else 2 * p * _m.sqrt(x) - p * p, 'PseudoHuber': lambda p, x: 2 * p * p * (_m.sqrt(x / (p * p) + 1) - 1),
+              'Cauchy': lambda p, x: p * p * _m.log(x / (p * p) + 1), 'SoftLOne': lambda p, x: 2 * (p * _m.sqrt(1 / (p * p) + x) - 1),
+              'Arctan': lambda p, x: p * p * _m.atan(x / (p * p)), 'Scale': lambda p, x: p * x}
+    for name, fn in closed.items():
+        for p in (0.3, 0.7, 1.0 / 3.0, 0.9):
+            ker = getattr(pp.optim.kernel, name)(p)
+            for xv in (0.0, 1e-3, 0.37, 2.5, 40.0):
+                got = float(ker(torch.tensor([xv], dtype=d64))[0]); want = fn(p, xv); evals += 1
+                if abs(got - want) > 1e-13 * (1 + abs(want)) + (0 if xv else 1e-15):
+                    fails.append(dict(clause='kernel_closed_form_float64', signature=f'{name}', delta=p, x=xv, got=got, want=want))
     # "raises on negative input" in float arithmetic: a negative input however small - also one that an intermediate like x / delta^2 + 1
     # would round away - is rejected, by every kernel, in both dtypes, alone or next to valid entries
     for name in ('Huber', 'PseudoHuber', 'Cauchy', 'SoftLOne', 'Arctan', 'Tolerant', 'Scale'):
